@@ -22,6 +22,18 @@ PROPS = {
             "hist": {"bin": "verifh", "run": "TestC01", "checks": {"quick": 400, "thorough": 48000}, "shards": {"quick": 4, "thorough": 16}},
         },
     },
+    "C09": {
+        "level": "exploration",
+        "level_text": "Differential check of every Update verdict against an executable reference rule list (written from c2sp tlog-witness + the property text) whose proof verdict comes from an independent strict RFC 6962 verifier: exhaustive cube of (stored,submitted,old) sizes x root x 14 proof shapes, random sizes to 2^63/old to 2^64-1, and generated histories; exhaustive only inside the cube.",
+        "level_note": "Trusted: reference model + reference verifier (cross-checked per cell against ground truth on leaves and self-tested against x/mod tlog.CheckTree); first use with old!=0/non-empty proof, stored 0 < submitted, odd-length roots are outside the claim as the property states.",
+        "technique": "property-based differential testing vs reference model; exhaustive small-scope enumeration + rapid random cases",
+        "assumptions": HIST_ASSUME,
+        "parts": {
+            "cube": {"bin": "verifh", "run": "TestC09Cube", "kind": "plain", "shards": {"quick": 8, "thorough": 16}},
+            "rand": {"bin": "verifh", "run": "TestC09Rand", "checks": {"quick": 2000, "thorough": 200000}, "shards": {"quick": 2, "thorough": 16}},
+            "hist": {"bin": "verifh", "run": "TestC09Hist", "checks": {"quick": 300, "thorough": 32000}, "shards": {"quick": 2, "thorough": 16}},
+        },
+    },
 }
 
 # properties not (yet) claimed: id -> reason
